@@ -328,7 +328,7 @@ def run(run):
     lap('replay_calls')
     # spec -> code: the sweep over serials
     if quick:
-        rs = run.tlc('MC_C18S', 'C18S_quick.cfg', dump=True, timeout=600)
+        rs = run.tlc('MC_C18S', 'C18_sweep_quick.cfg', dump=True, timeout=600)
         sweep = calls.replay_dump(run, pool.dump_blocks(rs.dump), SweepReplayer(every=13))
         nser = rs.distinct
     else:
@@ -341,7 +341,7 @@ def run(run):
             st0, tr0 = run.states, run.transitions      # run.tlc updates counters unlocked: recomputed below
 
             def one(lo, hi):
-                results[lo] = run.tlc('MC_C18S', 'C18S_range.cfg', dump=True, workers=2, timeout=1800,
+                results[lo] = run.tlc('MC_C18S', 'C18_sweep_range.cfg', dump=True, workers=2, timeout=1800,
                                       name=f'C18S-{lo}', env={'C18_LO': str(lo), 'C18_HI': str(hi)})
             ths = [threading.Thread(target=one, args=rg) for rg in group]
             [t.start() for t in ths]
